@@ -115,6 +115,12 @@ M = [
     ("C06", "sqlite-delete-in-script", "black_it/utils/sqlite3_checkpointing.py", "        cursor.execute(SQL_DELETE)\n", "        cursor.executescript(SQL_DELETE)\n"),
     ("C06", "sqlite-commit-early", "black_it/utils/sqlite3_checkpointing.py", "        cursor.execute(SQL_DELETE)\n", "        cursor.execute(SQL_DELETE)\n        connection.commit()\n"),
     ("C06", "csv-written-first", "black_it/utils/json_pandas_checkpointing.py", "    # save calibration parameters in a json dictionary\n", "    pd.DataFrame.from_dict({\"losses_samp\": losses_samp.tolist(), \"batch_num_samp\": batch_num_samp.tolist(), \"method_samp\": method_samp.tolist(), **{f\"params_samp_{d}\": params_samp[:, d] for d in range(params_samp.shape[1])}}).to_csv(checkpoint_path / \"calibration_results.csv\")\n    # save calibration parameters in a json dictionary\n"),
+    ("C10", "learn-on-end-marker", "black_it/schedulers/rl/rl_scheduler.py", "            if truncated:\n", "            if truncated and False:\n"),
+    ("C10", "no-drain", "black_it/schedulers/rl/rl_scheduler.py", "        while not self._in_queue.empty():\n            self._in_queue.get_nowait()\n", ""),
+    ("C10", "exit-on-flag", "black_it/schedulers/rl/rl_scheduler.py", "        while True:\n            # Get the action chosen by the agent", "        while not self._stopped:\n            # Get the action chosen by the agent"),
+    ("C10", "outcome-on-bootstrap", "black_it/schedulers/rl/rl_scheduler.py", "            self._env._curr_best_loss = best_new_loss  # noqa: SLF001\n            return", "            self._env._curr_best_loss = best_new_loss  # noqa: SLF001\n            self._out_queue.put((self._best_param, self._best_loss))\n            return"),
+    ("C10", "reference-updated-by-scheduler", "black_it/schedulers/rl/rl_scheduler.py", "        self._out_queue.put((self._best_param, self._best_loss))\n\n    def end_session", "        self._env._curr_best_loss = self._best_loss  # noqa: SLF001\n        self._out_queue.put((self._best_param, self._best_loss))\n\n    def end_session"),
+    ("C10", "no-join", "black_it/schedulers/rl/rl_scheduler.py", "        cast(threading.Thread, self._agent_thread).join()\n", "        pass\n"),
     ("C15", "no-tolerance", "black_it/search_space.py", "parameters_bounds[1][i] + 0.0000001,", "parameters_bounds[1][i],"),
 ]
 
